@@ -165,6 +165,18 @@ type verifC05Checker func(e *verifE1, who int, fk *verifFork, afterReload bool)
 // pending-remote window is open, right after a reconnect/reload, with a base
 // probability after every other action, and both parties at the final
 // quiescent state.
+// verifC05OnLoad, if set, is called when both parties have just been loaded
+// from disk: after the channel pair has been created and after every
+// restart/disconnect of the schedule (the contractcourt unit loads the chain
+// watchers' own channel state instances there).
+var verifC05OnLoad func(e *verifE1)
+
+func verifC05Loaded(e *verifE1) {
+	if verifC05OnLoad != nil && !e.ended {
+		verifC05OnLoad(e)
+	}
+}
+
 func verifC05Schedule(vc *verifCtx, i int, fn verifC05Checker) {
 	r := vc.Rng(i)
 	p := verifE1GenParams(r)
@@ -182,6 +194,7 @@ func verifC05Schedule(vc *verifCtx, i int, fn verifC05Checker) {
 	}
 	defer e.Close()
 	e.oracles = map[string]bool{"tx_exact": false}
+	verifC05Loaded(e)
 	const maxChecks = 7
 	checks := 0
 	force := false
@@ -209,6 +222,7 @@ func verifC05Schedule(vc *verifCtx, i int, fn verifC05Checker) {
 						if e.actDeliver(from, true) {
 							e.nRestarts++
 							e.reconnect(fmt.Sprintf("restart %s (mid-handler)", e.parties[1-from].Name), false)
+							verifC05Loaded(e)
 							done = true
 						}
 					}
@@ -222,6 +236,7 @@ func verifC05Schedule(vc *verifCtx, i int, fn verifC05Checker) {
 					e.nDisconnects++
 					e.reconnect("disconnect", false)
 				}
+				verifC05Loaded(e)
 			}
 			if cr.Chance(2, 3) {
 				check(cr.Intn(2), true)
